@@ -1,8 +1,8 @@
 (** * C13 — A self-locking powertrain is never driven by its load.  Statements only; generic in the arithmetic.
     [s_pwm_in] is the duty cycle in force when the instant was computed (the motor's attribute at the lock test: the
     previously recorded one, or what the user set before the run); [s_locked] the solver's flag after the test. *)
-From Coq Require Import ZArith String List Bool PrimFloat.
-From GP Require Import ArithDef FloatUtil UnitsCore PyUnits QOps Motor Solver SolverProofs Examples.
+From Coq Require Import ZArith String List Bool PrimFloat Reals.
+From GP Require Import ArithDef FloatUtil UnitsCore PyUnits RealArith UnitsR QOps Motor Solver SolverProofs HeldR Examples.
 Import ListNotations.
 
 Theorem C13_self_locking : forall (A : Arith) (c : @chain A) load ops p w st t s,
@@ -31,9 +31,20 @@ Proof. exact (@stepped_tq0). Qed.
 
 (** non-vacuity: with a 5 Nm load the self-locking train is held at 7 of 21 instants, is released again, and moves;
     the same train without the self-locking flag is never held *)
+(** while held, positions stay constant (over the reals, any units, any step): the instant that follows a held instant records the
+    same output position in SI — and with it every upstream position, by C01 *)
+Theorem C13_held_position_constant : forall (c : @chain RA) load ops p w st pre t s t1 s1 post p1 P1 DT,
+  exec c load ops (initial p w) = Ok st ->
+  y_hist st = (pre ++ (t, s) :: (t1, s1) :: post)%list ->
+  s_locked s1 = true ->
+  lastq (s_pos s1) = Ok p1 -> si p1 = Ok P1 ->
+  (forall dt, s_dt s = Some dt -> si dt = Ok DT) ->
+  exists p', lastq (s_pos s) = Ok p' /\ si p' = Ok P1.
+Proof. exact held_position_constant. Qed.
 Example C13_nonvacuous :
   Nat.eqb (count_locked (ex_final true 5)) 7 && has_release (ex_final true 5) && moved (ex_final true 5)
   && Nat.eqb (count_locked (ex_final false 5)) 0 = true.
 Proof. vm_compute. reflexivity. Qed.
 
 Print Assumptions C13_self_locking.
+Print Assumptions C13_held_position_constant.
